@@ -276,6 +276,104 @@ fn run_freshness(cx: &mut CaseCx, _case: &Value) {
   cx.outcome("300 requests fresh");
 }
 
+
+/// the finalised output depends on EVERY part of (input, tag, unblinded point), for every input length
+fn run_finalize(cx: &mut CaseCx, case: &Value) {
+  let lo = case["lo"].as_u64().unwrap() as usize;
+  let hi = case["hi"].as_u64().unwrap() as usize;
+  let p1: [u8; 32] = (curve25519_dalek::constants::RISTRETTO_BASEPOINT_POINT * Scalar::from(7u64)).compress().to_bytes();
+  let fin = |input: &[u8], md: u8, pt: &[u8; 32]| -> Option<[u8; 32]> {
+    let mut out = [0u8; 32];
+    guard(|| pp::Client::finalize(input, md, &pp::Point::from(&pt[..]), &mut out)).ok()?;
+    Some(out)
+  };
+  for len in lo..hi {
+    let input = prbytes(0xF1 + len as u64, len);
+    let base = match fin(&input, 7, &p1) {
+      Some(b) => b,
+      None => {
+        cx.viol("C12/finalize-panicked", format!("finalize panicked for an input of {} bytes", len), json!({"input_len": len}));
+        continue;
+      }
+    };
+    cx.nontrivial(len as u64);
+    let mut seen: HashMap<[u8; 32], String> = HashMap::new();
+    seen.insert(base, "base".into());
+    let mut check = |cx: &mut CaseCx, what: String, v: Option<[u8; 32]>| {
+      cx.eval();
+      if let Some(v) = v {
+        if let Some(prev) = seen.insert(v, what.clone()) {
+          cx.viol("C12/finalize-ignores-part", format!("input length {}: the finalised output is the same for [{}] and [{}]: it does not depend on all of (input, tag, unblinded point)", len, prev, what), json!({"input_len": len, "a": prev, "b": what}));
+        }
+      }
+    };
+    // every byte of the point (another server / another key gives another point)
+    for k in 0..32 {
+      let mut q = p1;
+      q[k] ^= 0x01;
+      check(cx, format!("point byte {} flipped", k), fin(&input, 7, &q));
+    }
+    for md in [0u8, 6, 8, 135, 255] {
+      check(cx, format!("tag {}", md), fin(&input, md, &p1));
+    }
+    // every byte of the input (bounded stride for long inputs), and neighbours in length
+    let step = if len > 64 { 7 } else { 1 };
+    let mut idx: Vec<usize> = (0..len).step_by(step).chain(len.checked_sub(1)).collect();
+    idx.dedup();
+    for k in idx {
+      let mut i2 = input.clone();
+      i2[k] ^= 0x80;
+      check(cx, format!("input byte {} flipped", k), fin(&i2, 7, &p1));
+    }
+    let mut longer = input.clone();
+    longer.push(0);
+    check(cx, "input + one zero byte".into(), fin(&longer, 7, &p1));
+    if len > 0 {
+      check(cx, "input without its last byte".into(), fin(&input[..len - 1], 7, &p1));
+    }
+  }
+  cx.outcome("finalize sensitive to all parts");
+}
+
+/// a replica that punctured MORE tags than an independently keyed leader imports the leader's state: same outputs
+fn run_foreign_import(cx: &mut CaseCx, _case: &Value) {
+  cx.entropy(970);
+  let leader = pp::Server::new(vec![0, 1, 2, 7]).expect("server");
+  let mut leader_p = leader.clone();
+  let _ = leader_p.puncture(1);
+  let mut replica = pp::Server::new(vec![0, 1, 2, 7, 9]).expect("server");
+  for t in [0u8, 2, 7, 9, 200] {
+    let _ = replica.puncture(t);
+  }
+  for (name, exporter) in [("fresh leader", &leader), ("leader with one puncture", &leader_p)] {
+    for (rname, mut target) in [("replica with more punctures (other key)", replica.clone()), ("fresh replica", pp::Server::new(vec![3]).expect("server"))] {
+      let bytes = bincode::serialize(&exporter.get_private_key()).expect("export");
+      let st: pp::ServerKeyState = bincode::deserialize(&bytes).expect("state");
+      target.set_private_key(st);
+      for md in [0u8, 1, 2, 7, 9] {
+        for verifiable in [false, true] {
+          let a = exchange(exporter, md, b"same input", &Blind::Fresh(0), verifiable);
+          let b = exchange(&target, md, b"same input", &Blind::Fresh(1), verifiable);
+          cx.eval();
+          cx.nontrivial(fnv_str(&format!("{}|{}|{}|{}", name, rname, md, verifiable)));
+          match (a, b) {
+            (Ok(x), Ok(y)) => {
+              if x.2 != y.2 {
+                cx.viol("C12/output-differs-after-key-sync", format!("{} -> {}: same server key (imported state), tag {} and input, different PPOPRF output", name, rname, md), json!({"exporter": name, "importer": rname, "tag": md, "verifiable": verifiable}));
+              } else {
+                cx.count("synced_outputs_equal", 1);
+              }
+            }
+            (Err(_), Err(_)) => cx.count("both_refuse", 1),
+            (x, y) => cx.viol("C12/output-differs-after-key-sync", format!("{} -> {}: tag {}: exporter {:?}, importer {:?}", name, rname, md, x.map(|_| "answers").map_err(|e| e), y.map(|_| "answers").map_err(|e| e)), json!({"exporter": name, "importer": rname, "tag": md, "verifiable": verifiable})),
+          }
+        }
+      }
+    }
+  }
+  cx.outcome("foreign import");
+}
+
 pub fn spec() -> PropSpec {
   PropSpec {
     id: "C12",
@@ -310,6 +408,20 @@ pub fn spec() -> PropSpec {
         min_counts: &[("stable_outputs", 200)],
       },
       Check { name: "repeated-requests", rule: "300 consecutive requests for two alternating inputs on one thread under fresh entropy: all blinded points pairwise distinct", gen: |_| vec![json!({})], run: run_freshness, min_counts: &[("fresh_requests", 300)] },
+      Check {
+        name: "finalize-sensitivity",
+        rule: "Client::finalize for EVERY input length 0..=320: the output changes when any single byte of the unblinded point, the tag, any input byte (stride 7 above 64 bytes) or the input length changes (pairwise distinct outputs per length)",
+        gen: |_| (0..16u64).map(|i| json!({"lo": i * 20, "hi": i * 20 + 20 + (i == 15) as u64})).collect(),
+        run: run_finalize,
+        min_counts: &[("evaluations", 10_000)],
+      },
+      Check {
+        name: "key-sync-import",
+        rule: "state of a leader (fresh / one puncture) imported into a fresh replica and into a replica of ANOTHER key that has punctured more tags: every tag, verifiable and not, gives the leader's output or is refused by both",
+        gen: |_| vec![json!({})],
+        run: run_foreign_import,
+        min_counts: &[("synced_outputs_equal", 10)],
+      },
       Check { name: "cross-server", rule: "4 independently keyed servers x 2 tags x 6 inputs: all finalised outputs distinct", gen: |_| vec![json!({})], run: run_cross_server, min_counts: &[("distinct_outputs", 40)] },
     ],
   }
